@@ -379,7 +379,28 @@ impl<
         // could still return an ambiguous offset).
         if this_index == starts.len() - 1 {
             if let Some(tz) = self.posix_tz() {
-                return tz.to_ambiguous_kind(dt);
+                let ambiguous = tz.to_ambiguous_kind(dt);
+                // N.B. The POSIX TZ string only describes what happens at
+                // or after the last transition in the TZif data, but it
+                // answers as if it had always applied. So if it reports a
+                // fold whose first instant comes before the last transition,
+                // then that instant is described by the TZif data instead.
+                // And we already know from above that, according to the TZif
+                // data, it isn't an interpretation of the datetime given.
+                // (This happens when the last transition in the TZif data
+                // coincides with a transition of the POSIX TZ string, but
+                // doesn't actually change the offset. For example,
+                // `America/Nuuk` in "slim" TZif data.)
+                if let AmbiguousOffset::Fold { before, after } = ambiguous {
+                    if let Ok(ts) = before.to_timestamp(dt) {
+                        if self.to_local_time_type(ts).is_ok() {
+                            return AmbiguousOffset::Unambiguous {
+                                offset: after,
+                            };
+                        }
+                    }
+                }
+                return ambiguous;
             }
             // This case is unspecified according to RFC 8536. It means that
             // the given datetime exceeds all transitions *and* there is no
